@@ -88,7 +88,16 @@ def main():
     shutil.copy(demo, os.path.join(dst, 'demo.py'))
     if os.path.exists(os.path.join(src, 'notes.md')):
         shutil.copy(os.path.join(src, 'notes.md'), os.path.join(dst, 'notes.md'))
-    json.dump(meta, open(os.path.join(dst, 'meta.json'), 'w'), indent=1)
+    old_meta = os.path.join(dst, 'meta.json')
+    if os.path.exists(old_meta):        # keep the result of the (slow) pinned-suite confirmation
+        try:
+            om = json.load(open(old_meta))
+            for k in ('tests_ok', 'tests_missing_from_pass_set', 'tests_passed'):
+                if k in om and meta.get(k) is None:
+                    meta[k] = om[k]
+        except Exception:
+            pass
+    json.dump(meta, open(old_meta, 'w'), indent=1)
     print(name, 'demo_ok', meta.get('demo_ok'), 'tests_ok', meta.get('tests_ok'), 'caught_by', meta['caught_by'],
           'with_input', meta['caught_with_failing_input'])
 
